@@ -179,6 +179,9 @@ def check(prog, run):
     _s3(prog, run)
     _s4(prog, run)
     check_deferred_conservation(prog, run, "S5")
+    # S6: a failing top-level field must not stop the chain: every runtime routes ResolverError (and its subclasses) to else_
+    from . import c08
+    c08.check_map_value_contract(prog, run, "S6")
 
 
 def _s4(prog, run):
@@ -301,3 +304,30 @@ def check_deferred_conservation(prog, run, rule_id):
                            "Executor.%s can return `%s` without going through runtime.%s (when %s): deferred items inside it are "
                            "not waited for" % (mname, norm_stmt(st, 70), need, cond or "always"))
                 break
+
+
+def check_guarded_flatten(prog, run, rule_id):
+    """The else_ guard of resolve_field covers the resolver's result at every nesting depth."""
+    r = run.rule(rule_id, "Executor.resolve_field: the map_value call that carries else_=(ResolverError, fail) receives the resolver's "
+                          "result already flattened by runtime.unwrap_value (directly, or through a local bound to it): a ResolverError "
+                          "raised by an awaitable/future nested inside the resolver's result then still reaches `fail` (null field + "
+                          "one error) instead of escaping the whole request under the deferred runtimes", 1)
+    f = prog.get_func(EXE, "Executor.resolve_field")
+    run.looked_at(f)
+    guarded = [n for n in own_nodes(f.node) if isinstance(n, ast.Call) and isinstance(n.func, ast.Attribute) and n.func.attr == "map_value"
+               and any(k.arg == "else_" for k in n.keywords)]
+    if len(guarded) != 1:
+        raise AnalysisError("%s: expected one else_-guarded map_value in Executor.resolve_field, found %d" % (rule_id, len(guarded)))
+    arg = guarded[0].args[0] if guarded[0].args else None
+    if isinstance(arg, ast.Name):
+        binds = [x.value for x in own_nodes(f.node) if isinstance(x, ast.Assign) and len(x.targets) == 1 and isinstance(x.targets[0], ast.Name)
+                 and x.targets[0].id == arg.id]
+        arg = binds[-1] if len(binds) == 1 else arg
+    flattened = isinstance(arg, ast.Call) and isinstance(arg.func, ast.Attribute) and arg.func.attr == "unwrap_value" and any(
+        isinstance(x, ast.Call) and isinstance(x.func, ast.Name) and x.func.id == "resolver" for x in ast.walk(arg))
+    r.instance("guarded map_value receives `%s`" % (" ".join(ast.unparse(arg).split())[:70] if arg is not None else None))
+    if not flattened:
+        run.report(r, "%s:Executor.resolve_field:guard-sees-unflattened-result" % EXE, f.where(guarded[0]),
+                   "the else_-guarded map_value receives `%s`, not runtime.unwrap_value(resolver(...)): only the first level of a nested "
+                   "awaitable/future is awaited under the guard, so a ResolverError from an inner level is raised out of the request"
+                   % (" ".join(ast.unparse(arg).split())[:70] if arg is not None else None))
